@@ -1,7 +1,7 @@
 (* Checkers evaluated by the correspondence run: each returns the indices of
    the cases on which the model and the output observed on the real Go code
    differ, or on which the specification-side predicate fails. *)
-From V Require Import Common.Base C03.Num C03.SpecOps C03.Tree C03.Fold C03.NumProofs.
+From V Require Import Common.Base C03.Num C03.SpecOps C03.Tree C03.Fold C03.NumProofs C03.MiniJS C03.Stmt.
 
 Fixpoint mism_from {A} (f : A -> bool) (l : list A) (i : nat) : list nat :=
   match l with
@@ -122,3 +122,7 @@ Definition check_sten :=
 Definition check_tostr :=
   mismatches (fun c : Z * option (list Z) => let '(b, r) := c in
     option_eqb zlist_eqb (go_TryToStringOnNumberSafely cvt_amd64 (num_of_bits b)) r).
+
+(* ---- statement-level mangling: (function body as parsed, function body as parsed with
+   MinifySyntax): same normal form, no hoisted name lost ---- *)
+Definition check_mangle_stmts_cases := mismatches (check_mangle_stmts unbound_h).
